@@ -1,10 +1,9 @@
 (* C20, loading: the loader of Model/Json.v (from_json on trees)
      - never aborts in the data-model decoding itself, whatever the tree;
-     - aborts only inside the two load-time reconstructions, and then the tree holds a NamedCal
-       document whose name NamedCal::try_new rejects, or is an FXRates document whose data
-       FXRates::try_new rejects / has no currency (DESIGN §6 F4);
-     - every loaded value has its full shape as soon as the relations a derived Deserialize does
-       not check (F5) hold.
+     - the two load-time reconstructions (serde(try_from), fix bca0987) return their error, so the
+       loader never aborts on a document describing at most 181 currencies (the i16 edge counter of
+       FXRates::try_new, see C09);
+     - every loaded value has its full shape (the validating data models of fix e8eeeaf).
    Axiom-free. *)
 From Coq Require Import ZArith Lia List Bool Arith String.
 From RL Require Import Base.Num Base.Str Base.Outcome Model.Dates Model.Calendar Model.Named
@@ -177,7 +176,8 @@ Proof. intros j. unfold dec_vars. apply omap_np. apply dec_seq_np. apply dec_str
 
 Ltac np_struct :=
   apply bind_np; [apply fields_of_np; repeat constructor; try apply chk_np; auto |];
-  intros; repeat (apply bind_np; [first [apply req_np | apply optf_np]; auto | intros]); try discriminate.
+  intros; repeat (apply bind_np; [first [apply req_np | apply optf_np]; auto | intros]); try discriminate;
+  try (cbv zeta; match goal with |- (if ?c then _ else _) <> Panic => destruct c; discriminate end).
 
 Lemma dec_dual_np : np (@dec_dual T _).
 Proof.
@@ -317,98 +317,57 @@ Section Total.
   Qed.
 End Total.
 
-(* ------------------------------------------------------------------ where the pinned loader aborts *)
-Definition named_rejected (v : json) : Prop :=
-  exists s, dec_named_model v = Ok s /\ named_try_new s = Err.
-Definition named_gap (j : json) : Prop := exists v, In v (named_sites j) /\ named_rejected v.
-(* FXRates: the reconstruction rejects the data, or a quote holds an ill-shaped Dual / Dual2 (F5 inside
-   F4: the reconstruction then runs dual arithmetic on arrays of different lengths, which ndarray
-   refuses by aborting; that arithmetic is outside the modelled domain) *)
-Definition fx_gap (j : json) : Prop :=
-  exists v rest d, j = JObj ((KStr k_FXRates, v) :: rest) /\ dec_fxdata v = Ok d /\
-                   (rebuild_fx_expect d = Panic \/
-                    existsb (fun r => negb (wf_numberb (fr_rate r))) (fd_rates d) = true).
+(* ------------------------------------------------------------------ the two reconstructions return *)
+Lemma rebuild_named_np : forall s, rebuild_named s <> Panic.
+Proof. exact named_no_panic. Qed.
 
-Lemma dec_named_panic v : dec_named rebuild_named_expect v = Panic -> named_rejected v.
+(* FXRates: the i16 edge counter of the triangulation overflows from 182 currencies on (an abort
+   under overflow checks; see C09).  A document is `small` when, if it is an FXRates document, the
+   market it describes has at most 181 currencies. *)
+Definition fxdata_small (d : jfxdata T) : Prop :=
+  match fd_ccys d with
+  | [] => True
+  | base :: _ => (List.length (ccy_index (map fxrate_of_j (fd_rates d)) (Some base)) <= 181)%nat
+  end.
+Definition doc_small (j : json) : Prop :=
+  forall v rest d, j = JObj ((KStr k_FXRates, v) :: rest) -> dec_fxdata v = Ok d -> fxdata_small d.
+
+Lemma rebuild_fx_np d : fxdata_small d -> rebuild_fx d <> Panic.
 Proof.
-  unfold dec_named. intros E. apply bind_panic in E. destruct E as [E|[s [E1 E2]]].
-  - exfalso. exact (dec_named_model_np v E).
-  - exists s. split; auto. unfold rebuild_named_expect, expect in E2.
-    pose proof (named_no_panic s). destruct (named_try_new s); try discriminate; auto. contradiction.
+  unfold fxdata_small, rebuild_fx. destruct (fd_ccys d) as [|base cs]; [discriminate|].
+  intros Hs. unfold fx_build. apply bind_np.
+  - apply try_new_no_panic_gen; auto.
+  - intros; discriminate.
 Qed.
+
 Lemma find_key {A} (variants : list (name * A)) k k' d :
   find (fun kv => name_eqb k (fst kv)) variants = Some (k', d) -> k = k' /\ In (k', d) variants.
 Proof.
   intros E. apply find_some in E. destruct E as [I E]. cbn [fst] in E. apply name_eqb_eq in E. auto.
 Qed.
-Lemma dec_caltype_panic c : dec_caltype rebuild_named_expect c = Panic -> named_gap c.
-Proof.
-  unfold dec_caltype, dec_tagged. destruct c as [| | | | | |l|[|[[k|z] v] rest]]; try discriminate.
-  destruct (find _ _) as [[k' d]|] eqn:F; [|discriminate].
-  apply find_key in F. destruct F as [<- I].
-  intros E. apply bind_panic in E. destruct E as [E|[a [_ E]]]; [|destruct rest; discriminate].
-  cbn [In] in I. destruct I as [I|[I|[I|[]]]]; injection I as Ek <-; apply omap_panic in E.
-  - exfalso. exact (dec_cal_np v E).
-  - exfalso. exact (dec_ucal_np v E).
-  - exists v. split; [|apply dec_named_panic; auto].
-    cbn [named_sites flat_map]. rewrite <- Ek. cbn [is_key]. rewrite name_eqb_refl. left; auto.
-Qed.
-Lemma gap_child j v : In v (children j) -> named_gap v -> named_gap j.
-Proof. intros Hv [x [Hx R]]. exists x. split; auto. eapply sites_child; eauto. Qed.
 
-Lemma dec_curvedf_panic j : dec_curvedf rebuild_named_expect j = Panic -> named_gap j.
-Proof.
-  unfold dec_curvedf. intros E. apply bind_panic in E. destruct E as [E|[sl [S E]]].
-  - apply fields_of_panic in E. destruct E as [i [v [Hv P]]].
-    destruct i as [|[|[|[|[|[|[|i]]]]]]]; cbn [nth] in P; try apply omap_panic in P.
-    + exfalso; exact (dec_nodes_np v P).
-    + exfalso; exact (dec_rule_np v P).
-    + exfalso; exact (dec_str_np v P).
-    + exfalso; exact (dec_unit_enum_np _ v P).
-    + exfalso; exact (dec_unit_enum_np _ v P).
-    + exfalso; exact (dec_opt_np _ dec_f64_np v P).
-    + eapply gap_child; eauto. apply dec_caltype_panic; auto.
-    + destruct i; discriminate.
-  - repeat (apply bind_panic in E; destruct E as [E|[? [_ E]]]);
-      try (exfalso; first [exact (req_np _ _ dec_nodes_np E) | exact (req_np _ _ dec_rule_np E)
-                          | exact (req_np _ _ dec_str_np E) | exact (req_np _ _ (dec_unit_enum_np _) E)
-                          | exact (optf_np _ _ dec_f64_np E)]; fail); try discriminate.
-    destruct (slot sl 6) as [v|] eqn:S6; cbn [req] in E; [|discriminate].
-    eapply gap_child; [eapply fields_of_children; eauto|]. apply dec_caltype_panic; auto.
-Qed.
-Lemma dec_curve_panic j : dec_curve rebuild_named_expect j = Panic -> named_gap j.
-Proof.
-  unfold dec_curve. intros E. apply bind_panic in E. destruct E as [E|[sl [S E]]].
-  - apply fields_of_panic in E. destruct E as [i [v [Hv P]]].
-    destruct i as [|i]; [|destruct i; discriminate]. cbn [nth] in P. apply omap_panic in P.
-    eapply gap_child; eauto. apply dec_curvedf_panic; auto.
-  - destruct (slot sl 0) as [v|] eqn:S0; cbn [req] in E; [|discriminate].
-    eapply gap_child; [eapply fields_of_children; eauto|]. apply dec_curvedf_panic; auto.
-Qed.
+Notation load := (dec_obj rebuild_named rebuild_fx).
 
-Notation load := (dec_obj rebuild_named_expect rebuild_fx_expect).
-
-Theorem load_panic_gap j : load j = Panic -> named_gap j \/ fx_gap j.
+Theorem load_no_panic j : doc_small j -> load j <> Panic.
 Proof.
-  unfold dec_obj, dec_tagged. destruct j as [| | | | | |l|[|[[k|z] v] rest]]; try discriminate.
+  intros Hs. unfold dec_obj, dec_tagged. destruct j as [| | | | | |l|[|[[k|z] v] rest]]; try discriminate.
   destruct (find _ _) as [[k' d]|] eqn:F; [|discriminate].
   apply find_key in F. destruct F as [<- I].
   intros E. apply bind_panic in E. destruct E as [E|[a [_ E]]]; [|destruct rest; discriminate].
   unfold obj_variants in I. cbn [In] in I.
   repeat (destruct I as [I|I]; [injection I as Ek <-; apply omap_panic in E|]); try contradiction.
-  - exfalso; exact (dec_dual_np v E).
-  - exfalso; exact (dec_dual2_np v E).
-  - exfalso; exact (dec_cal_np v E).
-  - exfalso; exact (dec_ucal_np v E).
-  - left. exists v. split; [|apply dec_named_panic; auto].
-    cbn [named_sites flat_map]. rewrite <- Ek. cbn [is_key]. rewrite name_eqb_refl. left; auto.
-  - right. unfold dec_fx in E. apply bind_panic in E. destruct E as [E|[dm [E1 E2]]].
-    + exfalso; exact (dec_fxdata_np v E).
-    + exists v, rest, dm. rewrite <- Ek. auto.
-  - left. eapply gap_child; [|apply dec_curve_panic; eauto]. cbn [children map snd]. left; auto.
-  - exfalso; exact (dec_spline_np _ dec_f64_np v E).
-  - exfalso; exact (dec_spline_np _ dec_dual_np v E).
-  - exfalso; exact (dec_spline_np _ dec_dual2_np v E).
+  - exact (dec_dual_np v E).
+  - exact (dec_dual2_np v E).
+  - exact (dec_cal_np v E).
+  - exact (dec_ucal_np v E).
+  - exact (dec_named_np rebuild_named rebuild_named_np v E).
+  - unfold dec_fx in E. apply bind_panic in E. destruct E as [E|[dm [E1 E2]]].
+    + exact (dec_fxdata_np v E).
+    + revert E2. apply rebuild_fx_np. apply (Hs v rest dm); [rewrite <- Ek; reflexivity | exact E1].
+  - exact (dec_curve_np rebuild_named rebuild_named_np v E).
+  - exact (dec_spline_np _ dec_f64_np v E).
+  - exact (dec_spline_np _ dec_dual_np v E).
+  - exact (dec_spline_np _ dec_dual2_np v E).
 Qed.
 
 (* ------------------------------------------------------------------ what every loaded value satisfies *)
@@ -432,12 +391,15 @@ Qed.
 
 Lemma dec_vars_nodup j l : dec_vars (T:=T) j = Ok l -> NoDup l.
 Proof. unfold dec_vars. intros E. apply omap_ok in E. destruct E as [a [_ ->]]. apply dedup_nodup. Qed.
-Lemma dec_dual_post j d : dec_dual j = Ok d -> NoDup (vs d).
+Lemma dec_dual_post j d : dec_dual j = Ok d -> wf_dualb d = true.
 Proof.
   unfold dec_dual. intros E. apply bind_ok in E. destruct E as [sl [_ E]].
   apply bind_ok in E. destruct E as [r [_ E]]. apply bind_ok in E. destruct E as [v [Ev E]].
-  apply bind_ok in E. destruct E as [dd [_ E]]. injection E as <-. cbn [vs].
-  apply req_ok in Ev. destruct Ev as [x [_ Ev]]. eapply dec_vars_nodup; eauto.
+  apply bind_ok in E. destruct E as [dd [_ E]].
+  destruct (Nat.eqb_spec (List.length v) (List.length dd)) as [L|L]; [|discriminate].
+  injection E as <-. unfold wf_dualb. cbn [vs du].
+  apply req_ok in Ev. destruct Ev as [x [_ Ev]].
+  rewrite (proj2 (nodupb_spec _) (dec_vars_nodup _ _ Ev)), L, Nat.eqb_refl. reflexivity.
 Qed.
 Lemma dec_arr2_post j a : dec_arr2 j = Ok a -> a_rows a * a_cols a = Z.of_nat (List.length (a_data a)).
 Proof.
@@ -445,15 +407,114 @@ Proof.
   destruct di as [|n [|m [|? ?]]]; try discriminate.
   destruct (Z.eqb_spec (n * m) (Z.of_nat (List.length da))); [|discriminate]. injection E as <-. auto.
 Qed.
-Lemma dec_dual2_post j d : dec_dual2 j = Ok d ->
-  NoDup (j2_vars d) /\ a_rows (j2_dd d) * a_cols (j2_dd d) = Z.of_nat (List.length (a_data (j2_dd d))).
+Lemma dec_dual2_post j d : dec_dual2 j = Ok d -> wf_jdual2b d = true.
 Proof.
   unfold dec_dual2. intros E. apply bind_ok in E. destruct E as [sl [_ E]].
   apply bind_ok in E. destruct E as [r [_ E]]. apply bind_ok in E. destruct E as [v [Ev E]].
   apply bind_ok in E. destruct E as [du [_ E]]. apply bind_ok in E. destruct E as [dd [Ed E]].
-  injection E as <-. cbn [j2_vars j2_dd].
+  cbv zeta in E.
+  destruct (Nat.eqb_spec (List.length v) (List.length du)) as [L|L]; [|discriminate].
+  destruct (Z.eqb_spec (a_rows dd) (Z.of_nat (List.length v))) as [Rw|Rw]; [|discriminate].
+  destruct (Z.eqb_spec (a_cols dd) (Z.of_nat (List.length v))) as [Cl|Cl]; [|discriminate].
+  cbn [andb] in E. injection E as <-. unfold wf_jdual2b. cbn [j2_vars j2_du j2_dd].
   apply req_ok in Ev. destruct Ev as [x [_ Ev]]. apply req_ok in Ed. destruct Ed as [y [_ Ed]].
-  split; [eapply dec_vars_nodup; eauto | eapply dec_arr2_post; eauto].
+  apply dec_arr2_post in Ed.
+  rewrite (proj2 (nodupb_spec _) (dec_vars_nodup _ _ Ev)), Rw, Cl, !Z.eqb_refl, <- L, Nat.eqb_refl. cbn [andb].
+  apply Z.eqb_eq. rewrite <- Ed, Rw, Cl. reflexivity.
+Qed.
+
+(* ------------------------------------------------------------------ IndexMap and sort_keys *)
+Lemma im_put_keys {V} k (v : V) m x : In x (map fst (im_put k v m)) <-> x = k \/ In x (map fst m).
+Proof.
+  induction m as [|[k' v'] m IH]; cbn [im_put map fst In].
+  - intuition.
+  - destruct (Z.eqb_spec k k') as [->|Hne]; cbn [map fst In]; [intuition|]. rewrite IH. intuition.
+Qed.
+Lemma im_put_nodup {V} k (v : V) m : NoDup (map fst m) -> NoDup (map fst (im_put k v m)).
+Proof.
+  induction m as [|[k' v'] m IH]; intros ND; cbn [im_put map fst].
+  - constructor; [intros []|constructor].
+  - cbn [map fst] in ND. inversion ND as [|? ? Hn ND']; subst.
+    destruct (Z.eqb_spec k k') as [->|Hne]; cbn [map fst]; [constructor; auto|].
+    constructor; auto. intros C. apply im_put_keys in C. destruct C as [C|C]; [congruence | contradiction].
+Qed.
+Lemma im_put_vals {V} (P : V -> Prop) k v m : P v -> (forall kv, In kv m -> P (snd kv)) ->
+  forall kv, In kv (im_put k v m) -> P (snd kv).
+Proof.
+  intros Pv. induction m as [|[k' v'] m IH]; intros Hm kv; cbn [im_put].
+  - intros [<-|[]]. exact Pv.
+  - destruct (k =? k').
+    + intros [<-|Hin]; [exact Pv | apply Hm; right; auto].
+    + intros [<-|Hin]; [apply (Hm (k', v')); left; auto | apply IH; auto; intros; apply Hm; right; auto].
+Qed.
+Lemma dec_imap_go_post {V} (d : json -> outcome V) (P : V -> Prop) : (forall j x, d j = Ok x -> P x) ->
+  forall kvs acc m, NoDup (map fst acc) -> (forall kv, In kv acc -> P (snd kv)) -> dec_imap_go d kvs acc = Ok m ->
+  NoDup (map fst m) /\ forall kv, In kv m -> P (snd kv).
+Proof.
+  intros HP. induction kvs as [|[[s|z] v] kvs IH]; intros acc m ND Ha E; cbn [dec_imap_go] in E; try discriminate.
+  - injection E as <-. auto.
+  - destruct ((i64_min <=? z) && (z <=? i64_max)); [|discriminate].
+    apply bind_ok in E. destruct E as [x [Ex E]]. eapply IH; [| |exact E].
+    + apply im_put_nodup; auto.
+    + apply im_put_vals; eauto.
+Qed.
+Lemma dec_imap_post {V} (d : json -> outcome V) (P : V -> Prop) j m : (forall j x, d j = Ok x -> P x) ->
+  dec_imap d j = Ok m -> NoDup (map fst m) /\ forall kv, In kv m -> P (snd kv).
+Proof.
+  intros HP. unfold dec_imap. destruct j; try discriminate. intros E.
+  eapply (dec_imap_go_post d P HP _ [] m); [constructor | intros ? [] | exact E].
+Qed.
+Lemma ins_key_in {V} (kv : Z * V) m x : In x (ins_key kv m) <-> x = kv \/ In x m.
+Proof.
+  induction m as [|y m IH]; cbn [ins_key In]; [intuition|].
+  destruct (fst kv <? fst y); cbn [In]; [intuition|]. rewrite IH. intuition.
+Qed.
+Lemma sort_keys_in {V} (m : list (Z * V)) x : In x (sort_keys m) <-> In x m.
+Proof.
+  unfold sort_keys. induction m as [|y m IH]; cbn [fold_right In]; [tauto|]. rewrite ins_key_in, IH. intuition.
+Qed.
+Lemma strictly_incr_cons a l : strictly_incr (a :: l) = true <-> (forall y, In y l -> a < y) /\ strictly_incr l = true.
+Proof.
+  split.
+  - intros S. split; [apply strictly_incr_lb; auto | eapply strictly_incr_tail; eauto].
+  - intros [Lb S]. destruct l as [|b l]; [reflexivity|].
+    change (((a <? b) && strictly_incr (b :: l)) = true). rewrite S.
+    rewrite (proj2 (Z.ltb_lt a b)) by (apply Lb; left; auto). reflexivity.
+Qed.
+Lemma ins_key_sorted {V} (kv : Z * V) m : strictly_incr (map fst m) = true -> ~ In (fst kv) (map fst m) ->
+  strictly_incr (map fst (ins_key kv m)) = true.
+Proof.
+  induction m as [|x m IH]; intros S Hn; cbn [ins_key map]; [reflexivity|].
+  destruct (Z.ltb_spec (fst kv) (fst x)) as [Hlt|Hge].
+  - cbn [map] in *. apply strictly_incr_cons. split; [|exact S].
+    intros y [<-|Hy]; auto. pose proof (strictly_incr_lb _ _ S y Hy). lia.
+  - cbn [map] in *. apply strictly_incr_cons in S. destruct S as [Lb S]. apply strictly_incr_cons. split.
+    + intros y Hy. apply in_map_iff in Hy. destruct Hy as [z [<- Hz]]. apply ins_key_in in Hz. destruct Hz as [->|Hz].
+      * assert (fst kv <> fst x) by (intros C; apply Hn; left; auto). lia.
+      * apply Lb. apply in_map; auto.
+    + apply IH; auto. intros C; apply Hn; right; auto.
+Qed.
+Lemma sort_keys_sorted' {V} (m : list (Z * V)) : NoDup (map fst m) -> strictly_incr (map fst (sort_keys m)) = true.
+Proof.
+  unfold sort_keys. induction m as [|x m IH]; intros ND; cbn [fold_right map]; [reflexivity|].
+  cbn [map] in ND. inversion ND as [|? ? Hn ND']; subst. apply ins_key_sorted; auto.
+  intros C. apply Hn. apply in_map_iff in C. destruct C as [z [E Hz]]. apply (sort_keys_in m z) in Hz.
+  rewrite <- E. apply in_map; auto.
+Qed.
+Lemma dec_nodes_post j n : dec_nodes j = Ok n -> strictly_incr (nodes_keys n) = true /\ nodes_wfb n = true.
+Proof.
+  unfold dec_nodes. intros E. apply dec_tagged_ok in E. destruct E as [k [d [v [I E]]]].
+  cbn [In] in I. destruct I as [I|[I|[I|[]]]]; injection I as _ <-; apply omap_ok in E; destruct E as [m [E ->]];
+    cbn [nodes_keys nodes_wfb].
+  - destruct (dec_imap_post dec_f64 (fun _ => True) _ _ (fun _ _ _ => I) E) as [ND _].
+    split; [apply sort_keys_sorted'; auto | reflexivity].
+  - destruct (dec_imap_post dec_dual (fun d => wf_dualb d = true) _ _ dec_dual_post E) as [ND Pm].
+    split; [apply sort_keys_sorted'; auto|]. apply forallb_forall. intros kv Hkv. apply (proj1 (sort_keys_in _ _)) in Hkv.
+    specialize (Pm kv Hkv). unfold wf_dualb in Pm. apply andb_true_iff in Pm. tauto.
+  - destruct (dec_imap_post dec_dual2 (fun d => wf_jdual2b d = true) _ _ dec_dual2_post E) as [ND Pm].
+    split; [apply sort_keys_sorted'; auto|]. apply forallb_forall. intros kv Hkv. apply (proj1 (sort_keys_in _ _)) in Hkv.
+    specialize (Pm kv Hkv). unfold wf_jdual2b in Pm. repeat (apply andb_true_iff in Pm; destruct Pm as [Pm ?]).
+    repeat (apply andb_true_iff; split); auto.
 Qed.
 
 Lemma znodupb_spec l : znodupb l = true <-> NoDup l.
@@ -501,14 +562,13 @@ Proof.
   unfold namedcal_eqb. rewrite str_eqb_refl, cals_eqb_syn_refl. cbn [andb].
   destruct (u_settle (n_ucal n)); auto using cals_eqb_syn_refl.
 Qed.
-Lemma dec_named_post j n : dec_named (T:=T) rebuild_named_expect j = Ok n -> named_shapeb n = true.
+Lemma dec_named_post j n : dec_named (T:=T) rebuild_named j = Ok n -> named_shapeb n = true.
 Proof.
   unfold dec_named. intros E. apply bind_ok in E. destruct E as [s [_ E]].
-  unfold rebuild_named_expect, expect in E. destruct (named_try_new s) eqn:F; try discriminate.
-  injection E as <-. apply named_try_new_ok_named in F. unfold ok_named in F.
+  unfold rebuild_named in E. rename E into F. apply named_try_new_ok_named in F. unfold ok_named in F.
   unfold named_shapeb. rewrite F. apply namedcal_eqb_refl.
 Qed.
-Lemma dec_caltype_post j c : dec_caltype (T:=T) rebuild_named_expect j = Ok c -> caltype_shapeb c = true.
+Lemma dec_caltype_post j c : dec_caltype (T:=T) rebuild_named j = Ok c -> caltype_shapeb c = true.
 Proof.
   unfold dec_caltype. intros E. apply dec_tagged_ok in E. destruct E as [k [d [v [I E]]]].
   cbn [In] in I. destruct I as [I|[I|[I|[]]]]; injection I as _ <-; apply omap_ok in E; destruct E as [a [E ->]];
@@ -527,20 +587,23 @@ Proof.
   apply in_map_iff in I. destruct I as [i [I Hi]]. injection I as _ <-.
   apply omap_ok in E. destruct E as [a [_ ->]]. apply in_seq in Hi. lia.
 Qed.
-Lemma dec_curvedf_post j c : dec_curvedf rebuild_named_expect j = Ok c ->
+Lemma dec_curvedf_post j c : dec_curvedf rebuild_named j = Ok c ->
+  (strictly_incr (nodes_keys (cv_nodes c)) = true /\ nodes_wfb (cv_nodes c) = true) /\
   caltype_shapeb (cv_cal c) = true /\ (cv_rule c < 6)%nat /\ (cv_conv c < 11)%nat /\ (cv_mod c < 5)%nat.
 Proof.
   unfold dec_curvedf. intros E. apply bind_ok in E. destruct E as [sl [_ E]].
-  apply bind_ok in E. destruct E as [n [_ E]]. apply bind_ok in E. destruct E as [r [Er E]].
+  apply bind_ok in E. destruct E as [n [En E]]. apply bind_ok in E. destruct E as [r [Er E]].
   apply bind_ok in E. destruct E as [i [_ E]]. apply bind_ok in E. destruct E as [cv [Ec E]].
   apply bind_ok in E. destruct E as [m [Em E]]. apply bind_ok in E. destruct E as [b [_ E]].
-  apply bind_ok in E. destruct E as [cal [Ecal E]]. injection E as <-. cbn [cv_cal cv_rule cv_conv cv_mod].
+  apply bind_ok in E. destruct E as [cal [Ecal E]]. injection E as <-. cbn [cv_cal cv_rule cv_conv cv_mod cv_nodes].
+  apply req_ok in En. destruct En as [x0 [_ En]]. split; [eapply dec_nodes_post; eauto|].
   apply req_ok in Er. destruct Er as [x1 [_ Er]]. apply req_ok in Ec. destruct Ec as [x2 [_ Ec]].
   apply req_ok in Em. destruct Em as [x3 [_ Em]]. apply req_ok in Ecal. destruct Ecal as [x4 [_ Ecal]].
   split; [eapply dec_caltype_post; eauto|]. split; [eapply dec_rule_bound; eauto|].
   split; [apply (dec_unit_enum_bound conv_names _ _ Ec) | apply (dec_unit_enum_bound mod_names _ _ Em)].
 Qed.
-Lemma dec_curve_post j c : dec_curve rebuild_named_expect j = Ok c ->
+Lemma dec_curve_post j c : dec_curve rebuild_named j = Ok c ->
+  (strictly_incr (nodes_keys (cv_nodes c)) = true /\ nodes_wfb (cv_nodes c) = true) /\
   caltype_shapeb (cv_cal c) = true /\ (cv_rule c < 6)%nat /\ (cv_conv c < 11)%nat /\ (cv_mod c < 5)%nat.
 Proof.
   unfold dec_curve. intros E. apply bind_ok in E. destruct E as [sl [_ E]].
@@ -578,13 +641,16 @@ Proof.
 Qed.
 Lemma dec_spline_post {X} (d : json -> outcome X) (P : X -> Prop) j s :
   (forall jx x, d jx = Ok x -> P x) -> dec_spline d j = Ok s ->
-  match sp_c s with Some c => Forall P c | None => True end.
+  spline_validb s = true /\ match sp_c s with Some c => Forall P c | None => True end.
 Proof.
   intros HP. unfold dec_spline. intros E. apply bind_ok in E. destruct E as [sl0 [_ E]].
   apply req_ok in E. destruct E as [v0 [_ E]]. unfold dec_pp in E.
   apply bind_ok in E. destruct E as [sl [_ E]]. apply bind_ok in E. destruct E as [k [_ E]].
   apply bind_ok in E. destruct E as [t [_ E]]. apply bind_ok in E. destruct E as [c [Ec E]].
-  apply bind_ok in E. destruct E as [n [_ E]]. injection E as <-. cbn [sp_c].
+  apply bind_ok in E. destruct E as [n [_ E]]. cbv zeta in E.
+  destruct ((1 <? Z.of_nat (List.length t)) && nondecr t && (k <=? Z.of_nat (List.length t)) &&
+            (n =? Z.of_nat (List.length t) - k)) eqn:Vd; [|discriminate].
+  injection E as <-. split; [exact Vd|]. cbn [sp_c].
   apply optf_ok in Ec. destruct Ec as [->|[v [l [_ [El ->]]]]]; auto.
   apply Forall_forall. intros x Hx. destruct (dec_arr1_in _ _ _ El x Hx) as [jx Ex]. eauto.
 Qed.
@@ -598,10 +664,10 @@ Lemma dedup_nodupb l : nodupb (dedup l) = true.
 Proof. apply nodupb_spec, dedup_nodup. Qed.
 
 (* the market the reconstruction builds has the constructor's shape *)
-Lemma rebuild_fx_post d f : rebuild_fx_expect d = Ok f -> fx_shapeb f = true.
+Lemma rebuild_fx_post d f : rebuild_fx d = Ok f -> fx_shapeb f = true.
 Proof.
-  unfold rebuild_fx_expect. destruct (fd_ccys d) as [|base cs]; [discriminate|].
-  unfold expect, fx_build. intros E.
+  unfold rebuild_fx. destruct (fd_ccys d) as [|base cs]; [discriminate|].
+  unfold fx_build. intros E.
   destruct (fx_try_new (map fxrate_of_j (fd_rates d)) (Some base)) as [F| |] eqn:TN; cbn [obind] in E; try discriminate.
   injection E as <-.
   destruct (try_new_shape _ _ _ TN) as [C [R [m [A [_ [L Fm]]]]]].
@@ -618,38 +684,36 @@ Proof.
   rewrite Nat.eqb_refl. reflexivity.
 Qed.
 
-Theorem load_shape j v : load j = Ok v -> unvalidated_ok v = true -> shapeb v = true.
+Lemma spline_shape_of {X} (wfx : X -> bool) (s : jspline T X) :
+  spline_validb s = true -> match sp_c s with Some c => Forall (fun x => wfx x = true) c | None => True end ->
+  spline_shapeb wfx s = true.
 Proof.
-  unfold dec_obj. intros E U. apply dec_tagged_ok in E. destruct E as [k [d [x [I E]]]].
+  unfold spline_validb, spline_shapeb. intros Vd Pc.
+  repeat (apply andb_true_iff in Vd; destruct Vd as [Vd ?]).
+  repeat (apply andb_true_iff; split); auto.
+  destruct (sp_c s); auto. apply forallb_forall. rewrite Forall_forall in Pc. auto.
+Qed.
+
+Theorem load_shape j v : load j = Ok v -> shapeb v = true.
+Proof.
+  unfold dec_obj. intros E. apply dec_tagged_ok in E. destruct E as [k [d [x [I E]]]].
   unfold obj_variants in I. cbn [In] in I.
   repeat (destruct I as [I|I]; [injection I as _ <-; apply omap_ok in E; destruct E as [a [E ->]]|]); try contradiction;
-    cbn [shapeb unvalidated_ok] in *.
-  - unfold wf_dualb. rewrite (proj2 (nodupb_spec _) (dec_dual_post _ _ E)). exact U.
-  - destruct (dec_dual2_post _ _ E) as [N A]. unfold wf_jdual2b, jdual2_lenb in *.
-    rewrite (proj2 (nodupb_spec _) N). cbn [andb].
-    apply andb_true_iff in U. destruct U as [U U3]. apply andb_true_iff in U. destruct U as [U1 U2].
-    rewrite U1, U2, U3. cbn [andb]. apply Z.eqb_eq in U2, U3. apply Z.eqb_eq. rewrite <- A, U2, U3. reflexivity.
+    cbn [shapeb] in *.
+  - eapply dec_dual_post; eauto.
+  - eapply dec_dual2_post; eauto.
   - eapply dec_cal_post; eauto.
   - eapply dec_ucal_post; eauto.
   - eapply dec_named_post; eauto.
   - unfold dec_fx in E. apply bind_ok in E. destruct E as [dm [_ E]]. eapply rebuild_fx_post; eauto.
-  - destruct (dec_curve_post _ _ E) as [C [R [Cv M]]]. unfold curve_shapeb. rewrite U, C. cbn [andb].
+  - destruct (dec_curve_post _ _ E) as [[S W] [C [R [Cv M]]]]. unfold curve_shapeb. rewrite S, W, C. cbn [andb].
     apply Nat.ltb_lt in R, Cv, M. rewrite R, Cv, M. reflexivity.
-  - unfold spline_shapeb, spline_lenb in *. exact U.
-  - pose proof (dec_spline_post dec_dual (fun d => NoDup (vs d)) _ _ dec_dual_post E) as P.
-    unfold spline_shapeb, spline_lenb in *. destruct (sp_c a) as [c|]; auto.
-    apply andb_true_iff in U. destruct U as [U0 U]. apply andb_true_iff in U. destruct U as [U1 U2].
-    rewrite U0, U1. cbn [andb]. unfold wf_dualb. apply forallb_and; auto.
-    apply forallb_forall. intros y Hy. rewrite Forall_forall in P. apply nodupb_spec. auto.
-  - pose proof (dec_spline_post dec_dual2 (fun d => NoDup (j2_vars d) /\
-        a_rows (j2_dd d) * a_cols (j2_dd d) = Z.of_nat (List.length (a_data (j2_dd d)))) _ _ dec_dual2_post E) as P.
-    unfold spline_shapeb, spline_lenb in *. destruct (sp_c a) as [c|]; auto.
-    apply andb_true_iff in U. destruct U as [U0 U]. apply andb_true_iff in U. destruct U as [U1 U2].
-    rewrite U0, U1. cbn [andb]. apply forallb_forall. intros y Hy.
-    rewrite Forall_forall in P. destruct (P y Hy) as [N A]. rewrite forallb_forall in U2. specialize (U2 y Hy).
-    unfold wf_jdual2b, jdual2_lenb in *. rewrite (proj2 (nodupb_spec _) N). cbn [andb].
-    apply andb_true_iff in U2. destruct U2 as [V V3]. apply andb_true_iff in V. destruct V as [V1 V2].
-    rewrite V1, V2, V3. cbn [andb]. apply Z.eqb_eq in V2, V3. apply Z.eqb_eq. rewrite <- A, V2, V3. reflexivity.
+  - destruct (dec_spline_post dec_f64 (fun _ => True) _ _ (fun _ _ _ => Logic.I) E) as [Vd P].
+    apply spline_shape_of; auto. destruct (sp_c a); auto. apply Forall_forall. auto.
+  - destruct (dec_spline_post dec_dual (fun d => wf_dualb d = true) _ _ dec_dual_post E) as [Vd P].
+    apply spline_shape_of; auto.
+  - destruct (dec_spline_post dec_dual2 (fun d => wf_jdual2b d = true) _ _ dec_dual2_post E) as [Vd P].
+    apply spline_shape_of; auto.
 Qed.
 
 End Load.
@@ -768,28 +832,29 @@ Proof.
 Qed.
 
 (* ------------------------------------------------------------------ loading *)
-Definition KnownGap {T} `{Num T} (j : json T) : Prop :=
-  named_gap j                                  (* F4: a NamedCal document whose name try_new rejects *)
-  \/ fx_gap j                                  (* F4: FXRates data that try_new rejects / no currency *)
-  \/ exists v, from_json_model j = Ok v /\ unvalidated_ok v = false.    (* F5: unchecked relations *)
-
-Lemma c20_load : forall (T : Type) (H : Num T) (j : json T), ~ KnownGap j ->
+(* the statement of the property for from_json: no abort, and every loaded value has its full shape.
+   `doc_small`: an FXRates document describes at most 181 currencies (C09's bound; the property
+   quantifies over documents obtained from valid ones, far below it). *)
+Lemma c20_load : forall (T : Type) (H : Num T) (j : json T), doc_small j ->
   from_json_model j <> Panic /\ forall v, from_json_model j = Ok v -> shapeb v = true.
 Proof.
-  intros T H j NG. split.
-  - intros P. apply load_panic_gap in P. apply NG. unfold KnownGap. tauto.
+  intros T H j Hs. split.
+  - apply load_no_panic; auto.
   - intros v E. apply (load_shape j v E).
-    destruct (unvalidated_ok v) eqn:U; auto. exfalso. apply NG. right. right. eauto.
 Qed.
-(* the data-model decoding itself never aborts: with reconstructions that return their error
-   (serde(try_from)) the loader is total *)
+(* documents that are not FXRates documents are small *)
+Lemma c20_small_other : forall (T : Type) (H : Num T) (j : json T),
+  (forall v rest, j <> JObj ((KStr k_FXRates, v) :: rest)) -> doc_small j.
+Proof. intros T H j Hn v rest d E. exfalso. exact (Hn v rest E). Qed.
+(* the data-model decoding itself never aborts: the loader aborts only if a reconstruction does *)
 Lemma c20_load_total_with_try_from : forall (T : Type) (H : Num T) rn rf,
   (forall s, rn s <> Panic) -> (forall d, rf d <> Panic) -> forall j : json T, dec_obj rn rf j <> Panic.
 Proof. intros T H rn rf Hn Hf j. apply (dec_obj_total rn rf Hn Hf j). Qed.
-Lemma c20_named_rebuild_total : forall s, rebuild_named_try s <> Panic.
+Lemma c20_named_rebuild_total : forall s, rebuild_named s <> Panic.
 Proof. exact named_no_panic. Qed.
 
-(* On the pinned tree the full statement (without ~ KnownGap) is false: *)
+(* the documents on which the pinned tree aborted (F4) or loaded an ill-shaped value (F5) are now
+   rejected with an error *)
 Definition doc_named_bad {T} `{Num T} : json T :=
   JObj [(KStr k_NamedCal, JObj [(KStr k_name, JStr (s2n "bad"%string))])].
 Definition doc_fx_empty {T} `{Num T} : json T :=
@@ -798,31 +863,10 @@ Definition doc_dual_short {T} `{Num T} : json T :=
   JObj [(KStr k_Dual, JObj [(KStr k_real, JNum n1); (KStr k_vars, JArr [JStr (s2n "x"%string); JStr (s2n "y"%string)]);
         (KStr k_dual, JObj [(KStr k_v, JInt 1); (KStr k_dim, JArr [JInt 1]); (KStr k_data, JArr [JNum n1])])])].
 
-Lemma c20_load_refuted_named : forall (T : Type) (H : Num T),
-  KnownGap (doc_named_bad (T:=T)) /\ from_json_model (doc_named_bad (T:=T)) = Panic.
-Proof.
-  intros T H. split; [|vm_compute; reflexivity].
-  left. exists (JObj [(KStr k_name, JStr (s2n "bad"%string))]). split; [left; reflexivity|].
-  exists (s2n "bad"%string). split; vm_compute; reflexivity.
-Qed.
-Lemma c20_load_refuted_fx : forall (T : Type) (H : Num T),
-  KnownGap (doc_fx_empty (T:=T)) /\ from_json_model (doc_fx_empty (T:=T)) = Panic.
-Proof.
-  intros T H. split; [|vm_compute; reflexivity].
-  right. left. exists (JObj [(KStr k_fx_rates, JArr []); (KStr k_currencies, JArr [])]), [], (mkJFxData [] []).
-  split; [reflexivity|]. split; [vm_compute; reflexivity | left; vm_compute; reflexivity].
-Qed.
-Lemma c20_load_refuted_shape : forall (T : Type) (H : Num T),
-  KnownGap (doc_dual_short (T:=T)) /\
-  exists v, from_json_model (doc_dual_short (T:=T)) = Ok v /\ shapeb v = false.
-Proof.
-  intros T H.
-  assert (E : from_json_model (doc_dual_short (T:=T)) = Ok (ODual (mkDual n1 [s2n "x"; s2n "y"] [n1]))).
-  { vm_compute. reflexivity. }
-  split.
-  - right. right. eexists. split; [exact E | vm_compute; reflexivity].
-  - eexists. split; [exact E | vm_compute; reflexivity].
-Qed.
+Lemma c20_load_rejects : forall (T : Type) (H : Num T),
+  from_json_model (doc_named_bad (T:=T)) = Err /\ from_json_model (doc_fx_empty (T:=T)) = Err /\
+  from_json_model (doc_dual_short (T:=T)) = Err.
+Proof. intros T H. repeat split; vm_compute; reflexivity. Qed.
 
 (* non-vacuity: a valid document is outside the gap and loads; a dense calendar exists *)
 Lemma c20_example :
